@@ -1,0 +1,12 @@
+//go:build !verif
+
+package grpctunnel
+
+// Verification hooks (see verif_on.go). With the "verif" build tag off these
+// are empty and are inlined away.
+
+func verifYield(string) {}
+
+func verifServerStarted(*tunnelServer) {}
+
+func verifServerEnded(*tunnelServer) {}
